@@ -5,7 +5,7 @@
    No JavaScript grammar is formalised: syntactic validity of the whole file
    rests on node compiling the real output (go/cmd/soyverif/c14.go). *)
 (* source tie by translation: the lemmas of these files are obligations of this property *)
-From Soy Require Import Proofs.SourceTieJs.
+From Soy Require Import Proofs.SourceTieJs Proofs.SourceTieJsScope Proofs.SourceTieJsText.
 From Soy Require Import Model.Bytes Model.Num Model.Values Model.Outcome Model.Ast Model.Utf8 Model.JsEscape
   Generated.Tables Model.JsGen Spec.Codec Spec.JsOut Proofs.Utf8Proofs Proofs.CodecProofs
   Proofs.JsGenProofs Proofs.JsGenInv Proofs.JsGenLit Proofs.JsGenDef.
